@@ -125,6 +125,10 @@ func c11Gen(tier string, emit func(c11Case)) {
 			emit(c11Case{Kind: "encoded", Strict: strict, Enc: enc, L: 4})
 		}
 	}
+	// dynamic routes whose literal text contains dots at every position: a dot is a dot for every request string
+	for _, pat := range []string{"/.a/{x}", "/.a[.b]", "/.{x}", "/a.b/{x}", "/a/{x}.b", "/.a.b/{x}.a", "/a[/.b]", "/..a/{x}"} {
+		emit(c11Case{Kind: "dotted", P: pat, L: 5})
+	}
 	// StrictLastSlash together with the route cache: '/x' and '/x/' stay different paths whatever was requested before
 	for _, capN := range []int{1, 2, 8} {
 		emit(c11Case{Kind: "strict-cache", Strict: true, L: capN})
@@ -245,6 +249,17 @@ func c11Run(c c11Case, st *fw.Stats) []fw.Viol {
 			if rt.Path() != want {
 				add("group:path", fmt.Sprintf("strict=%v: Group(%q){GET(%q)}: route path %q, expected prefix and path normal forms joined and re-normalised = %q", c.Strict, c.P, p, rt.Path(), want))
 				continue
+			}
+			if pi%16 == 0 {
+				// however the prefix was spelled, nothing of it is left once the group has returned
+				var after *rux.Route
+				if pv := try(func() { after = r.GET("/zz-after", h) }); pv != nil {
+					add("group:panic", fmt.Sprintf("strict=%v: a route registered after Group(%q) returned panicked: %v", c.Strict, c.P, pv))
+				} else if after.Path() != "/zz-after" {
+					add("group:prefix-residue", fmt.Sprintf("strict=%v: a route registered as \"/zz-after\" AFTER Group(%q) returned has path %q", c.Strict, c.P, after.Path()))
+				} else if m, _, _ := r.Match("GET", "/zz-after"); m == nil {
+					add("group:prefix-residue", fmt.Sprintf("strict=%v: a route registered as \"/zz-after\" after Group(%q) returned is not reachable there", c.Strict, c.P))
+				}
 			}
 			for qi, q := range set.strs {
 				st.Evals++
@@ -400,6 +415,39 @@ func c11Run(c c11Case, st *fw.Stats) []fw.Viol {
 				}
 			}
 		}
+	case "dotted":
+		pt, err := refmodel.CachedPattern(refmodel.Norm(c.P, false))
+		if err != nil {
+			panic(err)
+		}
+		var r *rux.Router
+		if pv := try(func() { r = rux.New(); r.GET(c.P, h) }); pv != nil {
+			add("register:panic", fmt.Sprintf("GET(%q) panicked: %v", c.P, pv))
+			return viols
+		}
+		al := []byte{'/', '.', 'a', 'b', 'x'}
+		var rec func(cur []byte)
+		rec = func(cur []byte) {
+			q := "/" + string(cur)
+			st.Evals++
+			want := pt.Matches(refmodel.Norm(q, false))
+			if want {
+				st.Nontrivial++
+			}
+			var got bool
+			if pv := try(func() { m, _, _ := r.Match("GET", q); got = m != nil }); pv != nil {
+				add("lookup:panic", fmt.Sprintf("route %q: Match(GET,%q) panicked: %v", c.P, q, pv))
+			} else if got != want {
+				add(fmt.Sprintf("dotted:reach:want=%v", want), fmt.Sprintf("route %q: request %q reaches it = %v, the pattern (every '.' literal) matches = %v", c.P, q, got, want))
+			}
+			if len(cur) == c.L+1 {
+				return
+			}
+			for _, ch := range al {
+				rec(append(cur, ch))
+			}
+		}
+		rec(nil)
 	case "strict-cache":
 		defs := []refmodel.RouteDef{{Path: "/u/{id}/", Methods: []string{"GET"}}, {Path: "/u/{id}", Methods: []string{"GET"}}, {Path: "/v/{id}", Methods: []string{"GET"}}, {Path: "/w/{id}/", Methods: []string{"GET"}}}
 		tb, err := refmodel.NewTable(defs, refmodel.Opts{Strict: c.Strict})
@@ -511,7 +559,7 @@ var c11Spec = fw.Spec[c11Case]{
 	ID:    "C11",
 	Level: "model_checking",
 	Rule: "complete enumeration: ALL strings of length <=L over {'/',' ','.','a','b',TAB} as registered path P and as request path Q - the full P x Q square in both StrictLastSlash modes (and again for all strings of <=3 characters over {'/','a',space,U+00A0,U+3000,U+0085,U+2003}) (one evaluation = one GET and one HEAD lookup of Q on a router holding GET P; reach <=> Norm(Q)==Norm(P)); " +
-		"all G x P x Q over strings of length <=3 for group prefixes and all nested G1 x G2 x P over strings of length <=2; all raw paths of <=4 tokens over {/,a,b,%2F,%2f,%20,space,|,%7C}, each with four RequestURI values (absent, equal, stale prefix, *) under both UseEncodedPath settings (directly and handed on by a front router with HandleContext); all request histories of <=3 over 8 paths with and without trailing slashes on caching routers (capacity 1, 2, 8) in both StrictLastSlash modes; static, multi-segment and dynamic routes of every length 1..300 bytes under three methods with nine request variations each; InterceptAll(p) with the route registered as p for all strings p of length <=3, in every option order, against all requests of length <=2; non-trivial = a (P,Q) pair that must reach the route / an escaped path that differs from the decoded one",
+		"all G x P x Q over strings of length <=3 for group prefixes and all nested G1 x G2 x P over strings of length <=2; all raw paths of <=4 tokens over {/,a,b,%2F,%2f,%20,space,|,%7C}, each with four RequestURI values (absent, equal, stale prefix, *) under both UseEncodedPath settings (directly and handed on by a front router with HandleContext); 8 dynamic routes with dots in their literal text against all request strings of <=6 characters over {/,.,a,b,x}; all request histories of <=3 over 8 paths with and without trailing slashes on caching routers (capacity 1, 2, 8) in both StrictLastSlash modes; static, multi-segment and dynamic routes of every length 1..300 bytes under three methods with nine request variations each; InterceptAll(p) with the route registered as p for all strings p of length <=3, in every option order, against all requests of length <=2; non-trivial = a (P,Q) pair that must reach the route / an escaped path that differs from the decoded one",
 	Assume: []string{"alphabet of 6 characters; L=5 quick, 6 thorough", "net/url's EscapedPath is taken as the definition of 'the escaped path'"},
 	Bounds: func(tier string) map[string]any {
 		L := 5
